@@ -197,6 +197,46 @@ func zxC15Iterate() {
 			vrtAssert(vrtImplies(set, vrtFloatEq(got, want)), "column "+f.Name+" of key x = value kept on disk (+) value inserted after the alter")
 		}
 	}
+	// C15: "... across any later flushes": flush once more under the new schema (rows of y are
+	// untouched by the memstore and eligible for the raw pass-through) and read the disk alone
+	rs.doProcessFlush(rs.memStore, false, false)
+	rows2, _, err2 := zxScan(rs, nil, nil, -1, -1)
+	vrtAssert(err2 == nil, "the disk-only scan after the second flush returns no error")
+	seen := map[string]int{}
+	for _, r := range rows2 {
+		seen[r.key]++
+		for i, f := range newFields {
+			got, set := zxVal(r.cols[i], f)
+			var want float64
+			wantSet := false
+			switch r.key + "/" + f.Name {
+			case "x/a":
+				want, wantSet = va1+va2, true
+			case "x/b":
+				if has(oldFields, f) {
+					want = vb1
+				}
+				want, wantSet = want+vb2, true
+			case "y/a":
+				want, wantSet = 1, true
+			case "y/b":
+				if has(oldFields, f) {
+					want, wantSet = 2, true
+				}
+			case "z/a":
+				want, wantSet = 3, true
+			case "z/b":
+				want, wantSet = 4, true
+			case "x/_points":
+				want, wantSet = 2, true
+			case "y/_points", "z/_points":
+				want, wantSet = 1, true
+			}
+			vrtAssert(set == wantSet, "after the second flush column "+f.Name+" of key "+r.key+" is set iff it has data")
+			vrtAssert(vrtImplies(set, vrtFloatEq(got, want)), "after the second flush column "+f.Name+" of key "+r.key+" still holds its value")
+		}
+	}
+	vrtAssert(seen["x"] == 1 && seen["y"] == 1 && seen["z"] == 1, "after the second flush every key is on disk exactly once")
 	vrtReach("I")
 }
 
